@@ -420,6 +420,7 @@ func c10(r *eng.Run) {
 		}
 	}
 	sweepTight = false
+	r.Set("reentrant_handler_runs", c10Reentrant(r))
 	r.Set("api_sweep_extra_inputs", len(extra))
 	e1Evidence(r, D, K, results...)
 	r.Set("hostile_handler_executions", hostileExecs)
@@ -622,4 +623,91 @@ func big32() int {
 		return math.MaxInt - 7
 	}
 	return int(v)
+}
+
+// c10Reentrant: handlers that re-enter the library from inside a traversal with the very Buffer
+// (and ValueReader) of the enclosing call, every entry point at every nesting of two; each such
+// call must return (the blocked-call detector reports one that does not) and report sane offsets.
+func c10Reentrant(r *eng.Run) int {
+	docs := []string{`[1,[2,{"a":[3]}],"x",{"b":null}]`, `{"a":[1,[2]],"b":{"c":"x"},"d":3}`, `[[[[1]]]]`, `{"k":{"k":{"k":1}}}`, `[]`, `{}`, `[1,`, `{"a":[}`, ` [ "\\n" , true ] `}
+	inner := []string{"SkipValue", "SkipValueFast", "Valid", "HandleArrayValues", "HandleObjectValues", "ReadValue", "decline"}
+	runs := 0
+	for _, doc := range docs {
+		w := eng.Exact([]byte(doc))
+		for _, a := range inner {
+			for _, b := range inner {
+				for _, shared := range []bool{true, false} {
+					eng.Beat(w)
+					runs++
+					buf := &rjson.Buffer{}
+					var vr rjson.ValueReader
+					depth := 0
+					var bad, got string
+					var act func(d []byte) (int, error)
+					act = func(d []byte) (int, error) {
+						which := a
+						if depth > 0 {
+							which = b
+						}
+						ib := buf
+						if !shared {
+							ib = nil
+						}
+						var p int
+						var err error
+						switch which {
+						case "decline":
+							return 0, nil
+						case "SkipValue":
+							p, err = rjson.SkipValue(d, ib)
+						case "SkipValueFast":
+							p, err = rjson.SkipValueFast(d, ib)
+						case "Valid":
+							rjson.Valid(d, ib)
+							return 0, nil
+						case "ReadValue":
+							_, p, err = vr.ReadValue(d)
+						case "HandleArrayValues", "HandleObjectValues":
+							if depth >= 2 {
+								return 0, nil
+							}
+							depth++
+							if which == "HandleArrayValues" {
+								p, err = rjson.HandleArrayValues(d, rjson.ArrayValueHandlerFunc(act), ib)
+							} else {
+								p, err = rjson.HandleObjectValues(d, rjson.ObjectValueHandlerFunc(func(_, d2 []byte) (int, error) { return act(d2) }), ib)
+							}
+							depth--
+						}
+						if err == nil && (p < 0 || p > len(d)) && bad == "" {
+							bad, got = which+"(inside a handler)/offset-range", fmt.Sprintf("p=%d len=%d", p, len(d))
+						}
+						if err != nil {
+							return 0, nil // the inner call could not use this member: decline it
+						}
+						return p, nil
+					}
+					pan := guard(func() {
+						var p int
+						var err error
+						if doc[0] == '{' || doc[1] == '{' {
+							p, err = rjson.HandleObjectValues(w, rjson.ObjectValueHandlerFunc(func(_, d2 []byte) (int, error) { return act(d2) }), buf)
+						} else {
+							p, err = rjson.HandleArrayValues(w, rjson.ArrayValueHandlerFunc(act), buf)
+						}
+						if err == nil && (p < 0 || p > len(w)) && bad == "" {
+							bad, got = "Handle*Values(re-entrant handler)/offset-range", fmt.Sprintf("p=%d len=%d", p, len(w))
+						}
+					})
+					if pan != "" {
+						bad, got = "Handle*Values(re-entrant handler)/panic", pan
+					}
+					if bad != "" {
+						r.Violation(eng.Replay{Engine: "api", Entry: bad, Sig: bad + "/" + a + "+" + b, InputB64: w, Expected: "returns normally with 0<=p<=len when err==nil", Got: got})
+					}
+				}
+			}
+		}
+	}
+	return runs
 }
